@@ -111,6 +111,13 @@ def collected(mod, fn, rd, params=(), helpers=None, result=None):
             comps.append((v.args[0], r))
     if result is not None:
         names.add(result)
+        for st in walk_no_nested(fn):
+            if isinstance(st, ast.Assign) and len(st.targets) == 1 and isinstance(st.targets[0], ast.Name) and st.targets[0].id == result:
+                v = st.value
+                if isinstance(v, ast.Call) and norm(v.func) in ("list", "set", "sorted") and v.args:
+                    v = v.args[0]
+                if isinstance(v, (ast.ListComp, ast.SetComp, ast.GeneratorExp)) and not any(c is v for c, _a in comps):
+                    comps.append((v, st))
 
     def cn(e, at):
         return canon(e, rd, at, params, helpers)
